@@ -22,6 +22,7 @@ import sys
 
 from .. import core, tlc
 from .. import nodecache_driver as drv
+from .. import zkmirror_driver
 
 SPEC_DIR = os.path.join(core.SPECS, 'node')
 INVARIANTS = ['InvAtomic', 'InvAtomicStep', 'InvNoExtra', 'InvPresent', 'InvContent', 'InvRefresh',
@@ -433,7 +434,18 @@ def judge(ctx, traces, verdicts):
                    exercised=dict(flags), spontaneous_exceptions=spontaneous,
                    crash_cuts=flags.get('crash', 0), ioerr_cuts=flags.get('ioerr', 0),
                    vanished_between_listing_and_read=dict(vanish_pos),
-                   extensions=dict(readiness=extensions), notes=ctx.notes))
+                   extensions=dict(readiness=extensions, zk2fs=getattr(ctx, 'zk2fs', None)),
+                   notes=ctx.notes))
+
+
+def _zk2fs_ext(ctx):
+    """Beyond C12: the other ZooKeeper -> file system mirror of the code base (zksync.zk2fs.Zk2Fs) against
+    specs/cell/ZkMirror.tla.  Conformance class DRIFT; a failure of this extension never decides C12."""
+    try:
+        return zkmirror_driver.run_ext(ctx)
+    except Exception as e:  # pylint: disable=broad-except
+        ctx.log('ext zk2fs not evaluated: %s: %s' % (type(e).__name__, str(e)[:300]))
+        return dict(error='%s: %s' % (type(e).__name__, str(e)[:300]))
 
 
 def run(ctx):
@@ -443,12 +455,14 @@ def run(ctx):
         fsim = pool.submit(_sim, ctx)
         flive = pool.submit(_sim_live, ctx) if not ctx.quick else None      # thorough tier only
         fmc = [pool.submit(_mc_one, ctx, name, consts, bounds) for name, consts, bounds, _ in confs]
+        fzk = pool.submit(_zk2fs_ext, ctx)
         rdf, rdi = _readiness_mc(ctx, pool)
         results = [f.result() for f in fmc]
         behaviours, cmd = fsim.result()
         live_b, live_cmd = flive.result() if flive else ([], '')
         cex = _mc(ctx, results)
         ctx.ext = _readiness_mc_done(ctx, rdf, rdi)
+        ctx.zk2fs = fzk.result()
     gen = _gen(ctx, behaviours, cmd)
     # readiness extension: the live run() loop (no cuts)
     if live_cmd:
